@@ -18,7 +18,7 @@ Clean(w, n) ==
                               IF (IF w.keys[j] >= 0 THEN w.keys[j] + 1 ELSE n + w.keys[j] + 1) = i THEN w.vals[j] ELSE 0])]
 MapInRange(w, n) == w.repr = "map" => \A j \in DOMAIN w.keys : w.keys[j] \in (0 - n)..(n - 1)
 
-ValuesKinds == {"clean", "layout", "cards", "divmod", "rake"}
+ValuesKinds == {"clean", "layout", "cards", "divmod", "divmodx", "rake"}
 VRep(k, it, what) == PrintT(<<"MISMATCH", k, it.kind, what, it>>)
 
 CleanOK(k, it) ==
@@ -47,6 +47,18 @@ DivModOK(k, it) ==
   IF it.integral THEN (it.q * it.d + it.r = it.a /\ it.r >= 0 /\ it.r < it.d) \/ VRep(k, it, "quotient * divisor + remainder # amount")
   ELSE (it.qd = it.a /\ it.r = 0) \/ VRep(k, it, "exact division: quotient * divisor # amount")
 
+\* inexact chip types: all three numbers over one denominator, as base-10000 limbs (least significant first)
+RECURSIVE AddLimbs(_, _, _)
+AddLimbs(x, y, c) ==
+  IF x = <<>> /\ y = <<>> THEN (IF c = 0 THEN <<>> ELSE <<c>>)
+  ELSE LET v == (IF x = <<>> THEN 0 ELSE Head(x)) + (IF y = <<>> THEN 0 ELSE Head(y)) + c
+       IN <<v % 10000>> \o AddLimbs(IF x = <<>> THEN <<>> ELSE Tail(x), IF y = <<>> THEN <<>> ELSE Tail(y), v \div 10000)
+RECURSIVE Trim(_)
+Trim(x) == IF x # <<>> /\ x[Len(x)] = 0 THEN Trim(SubSeq(x, 1, Len(x) - 1)) ELSE x
+DivModXOK(k, it) ==
+  (IF it.rneg THEN Trim(it.P) = Trim(AddLimbs(it.A, it.R, 0)) ELSE Trim(AddLimbs(it.P, it.R, 0)) = Trim(it.A))
+     \/ VRep(k, it, "the shares and the remainder do not add up to the amount")
+
 RakeOK(k, it) ==
   LET want == Rake([rake |-> [num |-> it.pnum, den |-> it.pden, cap |-> it.cap, nfnd |-> FALSE]], [board |-> <<>>], it.amount) IN
   /\ it.raked + it.unraked = it.amount \/ VRep(k, it, "raked + unraked # amount")
@@ -58,5 +70,6 @@ ValuesOK(k, it) ==
     [] it.kind = "layout" -> LayoutOK(k, it)
     [] it.kind = "cards" -> CardsOK(k, it)
     [] it.kind = "divmod" -> DivModOK(k, it)
+    [] it.kind = "divmodx" -> DivModXOK(k, it)
     [] it.kind = "rake" -> RakeOK(k, it)
 =============================================================================
